@@ -67,6 +67,20 @@ LeafPx(mode, v) == IF v = <<>> THEN UPx(mode)
                    ELSE [ch \in 1..NCh(mode) |-> IF mode = "Float" THEN <<v[ch], 1>> ELSE <<v[ch], v[ch]>>]
 Matrix(f(_, _), n) == [r \in 1..n |-> [col \in 1..n |-> f(r, col)]]
 AllUndef(mode, m) == \A r \in DOMAIN m : \A col \in DOMAIN m[r] : IsUPx(mode, m[r][col])
+\* Three-valued "undefined" for colour data.  The statement fixes the type of a colour mean, not its rounding, so a
+\* channel is an interval <<lo, hi>>.  A pixel whose alpha interval starts at 0 and ends above it (the faint mean of
+\* alphas that sum to 1 .. 3: 0 when truncated, 1 when rounded up) is undefined under one admissible rounding and
+\* defined under another: IsUPx says SURELY undefined (hi = 0), MaybeUPx POSSIBLY undefined (lo = 0).  A tile all of
+\* whose pixels are possibly undefined MAY be entirely undefined: whether its file exists depends on the rounding,
+\* but a file that exists must then hold a defined pixel (the harness's side of the existence sentence for such a
+\* tile; TileRec.may).  Float and integer data are two-valued: MaybeUPx = IsUPx.
+MaybeUPx(mode, px) == IF mode = "Colour" THEN px[4][1] = 0 ELSE IsUPx(mode, px)
+AllMaybeUndef(mode, m) == \A r \in DOMAIN m : \A col \in DOMAIN m[r] : MaybeUPx(mode, m[r][col])
+\* image.py update_into_maskable_buffer transfers a child's DEFINED pixels only; everything else keeps the cleared
+\* value (0, 0, 0, 0).  A colour pixel that may be undefined (alpha lo = 0) therefore contributes to the mosaic
+\* either its stored channels or zeros: every channel's interval is opened down to 0.  (For pixels that are surely
+\* defined or surely undefined - all leaf pixels, and everything in pyramids without faint alpha - this is the identity.)
+PlacePx(mode, px) == IF mode = "Colour" /\ px[4][1] = 0 THEN [ch \in 1..4 |-> <<0, px[ch][2]>>] ELSE px
 FlipRows(m) == [r \in DOMAIN m |-> m[Len(m) + 1 - r]]
 \* a bottom-up format (FITS) stores the displayed rows in reverse order
 ToFile(bottomup, m) == IF bottomup THEN FlipRows(m) ELSE m
@@ -93,7 +107,7 @@ Mosaic(mode, bottomup, kids) ==
         slotAt(hr, hc) == CHOOSE s \in 1..4 : sl[s] = <<hr, hc>>
     IN Matrix(LAMBDA r, col :
                  LET k == kids[slotAt((r - 1) \div T, (col - 1) \div T)]
-                 IN IF k.ex THEN k.px[((r - 1) % T) + 1][((col - 1) % T) + 1] ELSE UPx(mode), 2 * T)
+                 IN IF k.ex THEN PlacePx(mode, k.px[((r - 1) % T) + 1][((col - 1) % T) + 1]) ELSE UPx(mode), 2 * T)
 
 \* _get_min_max_of_children: min of the children's recorded minima, max of their maxima (children without
 \* a recorded range are skipped; nothing recorded at all -> no explicit range)
@@ -116,6 +130,6 @@ DisplayMosaic(mode, kids) ==
               LET j == (r - 1) \div T
                   i == (col - 1) \div T
                   k == kids[2 * j + i + 1]
-              IN IF k.ex THEN k.px[((r - 1) % T) + 1][((col - 1) % T) + 1] ELSE UPx(mode), 2 * T)
+              IN IF k.ex THEN PlacePx(mode, k.px[((r - 1) % T) + 1][((col - 1) % T) + 1]) ELSE UPx(mode), 2 * T)
 
 =============================================================================
